@@ -13,7 +13,10 @@ Definition model (i : input) : obs :=
                  | Ok n => Ok [obs_member n]
                  | Raised e => Raised e
                  end;
-     o_list := list_test (tree i) |}.
+     o_list := list_test (tree i);
+     o_cli_list := cli_list (tree i);
+     o_cli_run := cli_run (cli_load (names i) (file i) (tree i));
+     o_cli_both := cli_list (cli_load (names i) (file i) (tree i)) |}.
 
 Definition member_eqb : member -> member -> bool := pair_eqb Bool.eqb (list_eqb Nat.eqb).
 
@@ -21,7 +24,10 @@ Definition obs_eqb (a b : obs) : bool :=
   list_eqb Nat.eqb (o_iter a) (o_iter b)
   && list_eqb path_eqb (o_filter a) (o_filter b)
   && res_eqb (list_eqb member_eqb) exn_eqb (o_sorted a) (o_sorted b)
-  && list_eqb Nat.eqb (o_list a) (o_list b).
+  && list_eqb Nat.eqb (o_list a) (o_list b)
+  && list_eqb Nat.eqb (o_cli_list a) (o_cli_list b)
+  && list_eqb Nat.eqb (o_cli_run a) (o_cli_run b)
+  && list_eqb Nat.eqb (o_cli_both a) (o_cli_both b).
 
 Definition report := @report input obs model obs_eqb spec_okb findings.
 Definition model_at := @model_at input obs model spec_okb.
